@@ -267,8 +267,10 @@ CLAIMED = {
                 'r| <= (3 k2/pL^2 r + k2/(2 pL)) XKMPER (below 23 km for pL >= 1, r <= 2 earth radii: the osculating half of the perigee/apogee clause). The specific '
                 'orbital energy of the returned state is within 1 % of -mu/2a(t) on every answered propagation with eL^2 <= 4/25 and osculating perigee >= 1.03 earth '
                 'radii (exact vis-viva of the pre-correction state + a perturbation budget for the three corrections, its numeric core closed by interval arithmetic; '
-                "mu = ke^2 XKMPER^3/3600 = 398600.8). The other clauses (velocity = d position/dt within 0.15 %, the steps from the osculating a(t), eL(t) to the TLE's"
-                ' perigee/apogee and semi-major axis, orbit summary) are facts about the SGP4 theory and are checked by sampling',
+                'mu = ke^2 XKMPER^3/3600 = 398600.8). In the drag-free case (at epoch, or B* = 0 at any time; accepted set with e0 <= 0.39) both clauses are proved in '
+                "the property's own terms: the returned distance lies between the model's perigee and apogee radii a0''(1 -+ e0) XKMPER widened by 40 km, and the "
+                "energy is within 1 % of -mu/(2 a0'' XKMPER). The other clauses (velocity = d position/dt within 0.15 %, both clauses with drag away from epoch, orbit "
+                'summary) are facts about the SGP4 theory and are checked by sampling',
         "design_ref": 'DESIGN.md 5/C20',
         "note": 'trusted: Coq kernel, stdlib real axioms, translator (self-checked each run). Sampled clauses are not proved; say so in evidence.assumptions',
         "technique": 'Coq proof (ring with trigonometric identities) over source-regenerated model; finite-difference and node-scan oracle on the implementation',
